@@ -244,6 +244,18 @@ func init() {
 			ev["huge_view_elections_of_the_node_at_its_own_position"] = st.Elected
 			ev["huge_view_timeout_vote_destinations_judged"] = st.Destinations
 			ev["huge_view_samples"] = st.Samples
+			// the ordered-committee request fails a few times before it answers (200 ms of real time per retry: few worlds)
+			rviol, rj, rd := sim.ScriptCommitteeRetries(run.Seed*31+18, run.Pick(3, 30))
+			for i, v := range rviol {
+				if i >= 2 {
+					break
+				}
+				path := harness.ReplayPath("C18", fmt.Sprintf("committee-retries-%d", i+1))
+				harness.WriteJSON(path, map[string]interface{}{"property": "C18", "rule": v.Rule, "detail": v.Detail})
+				fs = append(fs, harness.Finding{Prop: "C18", Rule: v.Rule, Detail: v.Detail, Replay: path})
+			}
+			ev["committee_retry_worlds_judged"] = rj
+			ev["committee_retry_vote_destinations_judged"] = rd
 			fs3, ev3, inc := farViews("C18", 18)(run)
 			fs = append(fs, fs3...)
 			for k, v := range ev3 {
